@@ -18,6 +18,8 @@ Declined: exact quotient/rounding of ceil_div*, next_power_of_2 / log2 results, 
 """
 import os
 
+import re
+
 from engine import facts as F
 from engine import guards as G
 from engine import load
@@ -303,9 +305,9 @@ def _is_one(t):
 
 
 def _bool_eval(t, atom, assign):
-    """truth value of the boolean term t under `assign` ({atom name: 'is zero'}); atom(term) names the integer quantity a term
-    denotes (or None). Integer quantities enter only through their zero-ness: conversion to bool, == 0, != 0, 0 < q, q > 0
-    (unsigned). Anything else raises _NoTable (the caller reports analysis-broken, not a verdict)."""
+    """truth value of the boolean term t under `assign` ({atom name: sign "0" / "+" / "-"}); atom(term) names the integer quantity a
+    term denotes (or None). Integer quantities enter only through their sign: conversion to bool, == 0, != 0, 0 < q, q > 0, ...
+    (the caller offers "-" only for signed types: `q > 0` is `q != 0` for unsigned q and differs for a negative one). Anything else raises _NoTable (the caller reports analysis-broken, not a verdict)."""
     if t in (("k", "1"), ("k", "true")):
         return True
     if t in (("k", "0"), ("k", "false")):
@@ -325,15 +327,14 @@ def _bool_eval(t, atom, assign):
         return _bool_eval(t[2] if _bool_eval(t[1], atom, assign) else t[3], atom, assign)
     a = atom(t)
     if a is not None:
-        return not assign[a]          # an integer in a boolean context: true iff non-zero
+        return assign[a] != "0"          # an integer in a boolean context: true iff non-zero
     if t[0] == "b" and t[1] in ("==", "!=", "<", ">", "<=", ">="):
         op, l, r = t[1], t[2], t[3]
         if _is_zero(l) and atom(r) is not None:
             op, l, r = {"<": ">", ">": "<", "<=": ">=", ">=": "<="}.get(op, op), r, l
         if _is_zero(r) and atom(l) is not None:
-            z = assign[atom(l)]
-            # unsigned quantity q against 0: q == 0, q != 0, q > 0 (non-zero), q <= 0 (zero), q >= 0 (always), q < 0 (never)
-            return {"==": z, "!=": not z, ">": not z, "<=": z, ">=": True, "<": False}[op]
+            sg = assign[atom(l)]          # the sign of the quantity: "0", "+" or (signed types only) "-"
+            return {"==": sg == "0", "!=": sg != "0", ">": sg == "+", "<=": sg != "+", ">=": sg != "-", "<": sg == "-"}[op]
     raise _NoTable(T.show(t))
 
 
@@ -364,7 +365,7 @@ def rule_mirror(rep, db):
         try:
             # x == 0 implies x & (x-1) == 0: three feasible rows
             for (zx, ze) in ((True, True), (False, True), (False, False)):
-                got = _bool_eval(t, atom, {"x": zx, "x&(x-1)": ze})
+                got = _bool_eval(t, atom, {"x": "0" if zx else "+", "x&(x-1)": "0" if ze else "+"})     # T is unsigned (static_assert)
                 want = (not zx) and ze
                 if got != want:
                     why = "for x %s 0 and (x & (x - 1)) %s 0 the result is %s, specification x != 0 && (x & (x - 1)) == 0 (expression %s)" % (
@@ -376,10 +377,12 @@ def rule_mirror(rep, db):
         (rep.fail if why else rep.ok)("MIRROR", "is_power_of_2", F.primary_site(fn), F.describe(fn), **({"why": why} if why else {"how": "decision table over (x == 0, x & (x-1) == 0): x != 0 && (x & (x-1)) == 0"}))
     seen = set()
     for fn in db.fns("fcppt::bit::test"):
-        if F.primary_site(fn) in seen:
-            continue
-        seen.add(F.primary_site(fn))
         u = fn["_unit"]
+        ty = re.sub(r"^const ", "", u.ty(fn["params"][0]["t"]) or "?")
+        if ty in seen:
+            continue
+        seen.add(ty)
+        signed = not re.match(r"^(unsigned|bool|char(8|16|32)_t|wchar_t)", ty) and ty != "char"
         t = T.return_term(u, fn)
         v0 = ("v", fn["params"][0]["id"], fn["params"][0]["name"])
         m0 = ("v", fn["params"][1]["id"], fn["params"][1]["name"])
@@ -392,18 +395,19 @@ def rule_mirror(rep, db):
             return None
         if t is None:
             rep.broken("C06 MIRROR bit::test at %s: the function is not a single boolean expression / early-return chain" % F.primary_site(fn))
-            continue
+            break
         why = None
         try:
-            for z in (True, False):
-                got = _bool_eval(t, atom2, {"value&mask": z})
-                if got != (not z):
-                    why = "for (value & mask) %s 0 the result is %s, specification (value & mask) != 0 (expression %s)" % ("==" if z else "!=", str(got).lower(), T.show(t))
+            for sg in (("0", "+", "-") if signed else ("0", "+")):
+                got = _bool_eval(t, atom2, {"value&mask": sg})
+                if got != (sg != "0"):
+                    why = "for (value & mask) %s 0 the result is %s, specification (value & mask) != 0 (expression %s%s)" % (
+                        {"0": "==", "+": ">", "-": "<"}[sg], str(got).lower(), T.show(t), "; the sign bit of a signed type makes the masked value negative" if sg == "-" else "")
                     break
         except _NoTable as e:
             rep.broken("C06 MIRROR bit::test at %s: the result depends on `%s`, which is not value & mask.get() tested against zero" % (F.primary_site(fn), e))
             continue
-        (rep.fail if why else rep.ok)("MIRROR", "bit::test", F.primary_site(fn), F.describe(fn), **({"why": why} if why else {"how": "decision table: (value & mask) != 0"}))
+        (rep.fail if why else rep.ok)("MIRROR", "bit::test<%s>" % ty, F.primary_site(fn), F.describe(fn), **({"why": why} if why else {"how": "decision table: (value & mask) != 0"}))
 
 
 # ------------------------------------------------------------------------------------------------
